@@ -193,6 +193,7 @@ class RefInterp(ObjInterp):
             return None
         loc = self.loc_of(e, fr)
         if loc is not None:
+            self.touch_handle(loc, e, st, fr)
             return self.getloc(st, loc)
         if k in CALLS:
             sd, obj, args = tu.call_parts(e)
@@ -333,9 +334,26 @@ class RefInterp(ObjInterp):
             c -= 1
             if c == 0:
                 d['!' + target] = True
+                # the pointee may be destroyed now, and its destructor may drop the only references to *other* objects
+                # (a list node owning the next one): a pointee on which this operation holds no count is unreliable too
+                for other in OBJS:
+                    if other != target and d.get('#' + other, 0) == 0:
+                        d['!' + other] = True
         d['#' + target] = c
         d['$ev'] = ev + ('%s(%s)' % ('inc' if what == 'refInc' else 'dec', target),)
         return [freeze(d)]
+
+    def touch_handle(self, loc, n, st, fr):
+        """access to the pointer member of a handle object that lives inside a pointee (scenario `$in:<handle>`): once that
+        pointee may have been destroyed the handle object itself is gone"""
+        if loc[0] != 'h' or self._cur is None:
+            return
+        d = thaw(st)
+        owner = d.get('$in:' + str(loc[1]))
+        if owner and d.get('!' + owner):
+            self.report('source-destroyed', 'the pointer member of `%s` is accessed after the operation released what may be the last '
+                        'count on the object that contains `%s` (e.g. head = head->next): the handle object itself may already '
+                        'be destroyed (events so far %s)' % (loc[1], loc[1], list(d.get('$ev', ()))), n, fr, st)
 
     def und(self, msg):
         if msg not in self.undecided:
@@ -443,6 +461,7 @@ class RefInterp(ObjInterp):
             if loc[0] == '?':
                 self.und('assignment to the pointer member of an untracked handle at %s' % tu.loc(n))
                 return [st]
+            self.touch_handle(loc, n, st, fr)
             v = self.pval(ks[1], st, fr)
             if v is None or isinstance(v, tuple):
                 self.und('value assigned to a tracked pointer not understood at %s: %s' % (tu.loc(n), tu.show(n)))
@@ -643,6 +662,16 @@ def scenarios(tu, f):
                     d2['v:' + p['id']] = v
                     nxt.append((env, d2, hs, lab + ['%s=%s' % (nm, v)]))
             combos = nxt
+        if is_member and not ctor and tv == 'A':
+            extra = []
+            for env, d, hs, lab in combos:
+                for p, rect in hparams:
+                    nm = env.get(p['id'])
+                    if nm and nm != 'this' and d.get(nm) in ('null', 'B'):
+                        d2 = dict(d)
+                        d2['$in:' + nm] = 'A'
+                        extra.append((env, d2, hs, lab + ['&%s inside *this->ptr' % nm]))
+            combos = combos + extra
         for env, d, hs, lab in combos:
             for o in OBJS:
                 d['#' + o] = sum(1 for h in hs if d.get(h) == o)
@@ -1093,6 +1122,14 @@ def check_rmw_fn(ctx, tu, f, counter_ids, sign, file):
                     cond_seen_before_rmw = True
                 # does the condition read the counter again?
                 reread = [y for y in tu.walk(c) if atomic_call(tu, y, counter_ids) and atomic_call(tu, y, counter_ids)[0] == 'load']
+                # ... or through an own accessor whose body loads the counter (useCount())
+                for y in tu.walk(c):
+                    if y.get('kind') == 'CXXMemberCallExpr':
+                        cf = tu.callee_fn(y)
+                        if cf is not None and cf.get('recid') == f.get('recid') and tu.cfg(cf) is not None and any(
+                                atomic_call(tu, z, counter_ids) and atomic_call(tu, z, counter_ids)[0] == 'load'
+                                for _b, _i, z in tu.cfg(cf).stmts()):
+                            reread.append(y)
                 for vid, init in env_vars.items():
                     if any(y.get('kind') == 'DeclRefExpr' and y.get('referencedDecl', {}).get('id') == vid for y in tu.walk(c)):
                         reread += [y for y in tu.walk(init) if atomic_call(tu, y, counter_ids) and atomic_call(tu, y, counter_ids)[0] == 'load']
